@@ -198,7 +198,11 @@ class FileSystemLoader:
                     raise LoadError("Cannot load location relative to source with no local folder path")
             else:
                 resolved = load_item.source.local_folder_path / spec
-        resolved = resolved.resolve()
+        try:
+            resolved = resolved.resolve()
+        except ValueError as e:
+            # e.g. an embedded null character: not a path the operating system accepts
+            raise LoadError(f"Load item {spec!r} is not a valid path: {e}")
         if resolved.resolve() != resolved:
             # Non-strict resolution gives up at a symlink loop and leaves the rest of the path
             # unresolved, including any symlinks in it: only accept a canonical path
